@@ -1,6 +1,7 @@
 import AdfObdd.Drv.Bdd
 import AdfObdd.Drv.Adf
 import AdfObdd.Drv.Parser
+import AdfObdd.Drv.Ng
 /-! Model driver: one request per line in, the request and the model's answers out.
     `= …` is the algorithmic model's answer, `~ …` the executable specification's. Lines
     starting with `=`, `~` (the implementation's answers) and `#` are skipped. -/
@@ -9,6 +10,7 @@ open Drv
 structure DS where
   bdd : BddSt := {}
   adf : AdfSt := {}
+  ng : NgStoreSt := {}
   feats : List String := []
 
 def step (d : DS) (l : String) : List String × DS :=
@@ -27,6 +29,9 @@ def step (d : DS) (l : String) : List String × DS :=
   | none =>
   match parserStep l ws with
   | some out => (out, d)
+  | none =>
+  match ngStep d.ng l ws with
+  | some (out, g) => (out, { d with ng := g })
   | none => ([l, "= unknown-request"], d)
 
 partial def loop (h : IO.FS.Stream) (out : IO.FS.Stream) (d : DS) : IO Unit := do
